@@ -281,9 +281,11 @@ def fill_loops(kind):
         rel = fill_rel(kind, lst[0], 'this')
         item, tab = ('RR', 'm_rr') if kind == 'rr' else ('Question', 'm_qrr')
         i = info['counter']
-        locs = ', '.join(n for n, t in tf.locals if n not in (lst[0],) and not n.startswith('__i'))
+        # a scratch record declared at function level (hoisted out of the loop by a refactoring) belongs to the loop's frame: locals are invisible to the
+        # caller, so this widens nothing the property talks about; whether stale members leak into the next element is decided by the invariant
+        locs = ''.join(', ' + n for n, t in tf.locals if t == 'struct GenericResourceRecord' and getattr(tf, 'local_depth', {}).get(n) == 0)
         return {k: '''
-  __CPROVER_assigns(%(i)s, %(l)s, %(curs)s, seq_u32__cur, g_exc)
+  __CPROVER_assigns(%(i)s, %(l)s, %(curs)s, seq_u32__cur, g_exc%(locs)s)
   __CPROVER_loop_invariant(g_exc == 0 && %(i)s <= list->n && %(l)s.n == %(i)s && %(l)s.wi == __CPROVER_loop_entry(%(l)s.wi))
   __CPROVER_loop_invariant((%(l)s.wi < %(i)s && %(l)s.wi == list->wi && (unsigned long)list->wv == this->base.%(tab)s.wi) ==> (%(rel)s))
   __CPROVER_decreases(list->n - %(i)s)
